@@ -164,6 +164,7 @@ class C08(Check):
     design_ref = 'DESIGN.md 3.4'
     runs = {'quick': 2000, 'thorough': 30000}
     shrink_lists = (('ops',), ('config', 'mws'))
+    hashseed_sample = {'quick': 150, 'thorough': 1200}     # also run under python -O (asserts stripped, __debug__ false)
     rule = ('generated stacks (0-4 middlewares, app/route level, any phases) x error handler {default, debug, re-raising, '
             'broken render_error, render_error returning another error}, installed as instance or as handler TYPE on an Application subclass, '
             'under an interpreter-wide traceback limit {unset, 0, 1, -1, 3}; per stack EVERY chain position is made faulty once '
@@ -200,9 +201,13 @@ class C08(Check):
         elif r < 0.55:
             f = {'beh': 'raise' if is_leaf else rng.choice(['raise_before', 'raise_after']), 'exc': 'http:' + rng.choice(HTTP_CLASSES),
                  'msg': msg, 'breaking': rng.random() < 0.6}
+            if rng.random() < 0.5:
+                f['exc_info'] = 'proper'
         elif r < 0.75:
             f = {'beh': 'return' if is_leaf else rng.choice(['return_early', 'replace_after']), 'value': 'http:' + rng.choice(HTTP_CLASSES),
                  'msg': msg, 'breaking': rng.random() < 0.6}
+            if rng.random() < 0.5:
+                f['exc_info'] = 'proper'
         else:
             f = {'beh': 'return' if is_leaf else rng.choice(['return_early', 'replace_after']), 'value': rng.choice(VALUES)}
             if f['value'] in ('resp', 'baseresp'):
